@@ -316,6 +316,41 @@ def _options_forwarded(ctx, rule):
     return c14.r13_options_forwarded(ctx, rule)
 
 
+def r15_restore_only_in_probability_order_mode(ctx, rule):
+    """--load means "continue the saved true_prob_order session"; the honeyword and random-walk modes have nothing to resume and
+    take ruleset and options from the command line.  In pcfg_guesser.main the call of load_save is guarded by the mode test.
+    (Seed C16-da dropped the test: `--mode honeywords --load` then overwrites rule_name / skip_brute / skip_case from <session>.sav -
+    the words come from another ruleset than the one asked for - or prints nothing when no .sav exists.)"""
+    q = 'pcfg_guesser.py::main'
+    fn = ctx.fn(q)
+    mod = ctx.repo.modules['pcfg_guesser.py']
+    ctx.stats['functions'].add(q)
+    calls = [c for c in calls_in(fn) if call_name(c) == 'load_save']
+    if len(calls) != 1:
+        ctx.unk(rule, q, 'expected one load_save call in main (found %d)' % len(calls))
+        return
+    st = c08._stmt_of(mod, calls[0])
+    conds = path_conditions(mod, st)
+    texts = [(U(t), pol) for t, pol in conds]
+    guarded = False
+    for t, pol in conds:
+        for x in ast.walk(t):
+            if isinstance(x, ast.Compare) and len(x.ops) == 1 and 'cracking_mode' in U(x):
+                consts = [const(y) for y in [x.left] + list(x.comparators) if isinstance(const(y), str)]
+                if consts == ['true_prob_order'] and isinstance(x.ops[0], ast.Eq) and pol:
+                    guarded = True
+                if isinstance(x.ops[0], (ast.In, ast.NotIn)) or (consts and consts != ['true_prob_order']):
+                    guarded = guarded or None
+    if guarded is True:
+        ctx.ok(rule, q, 'load_save runs only under cracking_mode == true_prob_order', {'conditions': texts})
+    elif guarded is None:
+        ctx.unk(rule, q, 'the mode test in front of load_save is not of a form this rule knows: %s' % texts)
+    else:
+        ctx.bad(rule, q, 'load_save runs under %s' % (texts or 'no condition'),
+                'in honeyword / random-walk mode --load replaces the ruleset and the flags given on the command line by those of a saved '
+                'cracking session (or ends the run when there is none): the words no longer come from the requested grammar', None, calls[0], firm=True)
+
+
 def r14_walk_loop_exits(ctx, rule):
     """'exactly N words are produced for --limit N': the loop of HoneywordSession.run that draws one walk per round is left only
     when the limit is used up or the reader of the words has gone (OSError).  Any other way out ends the session short
@@ -409,11 +444,20 @@ def r14_walk_loop_exits(ctx, rule):
             ctx.ok(rule, q, 'the walk loop has %d exit(s): %d on the limit (%s), the rest in handlers of OSError' % (len(exits), n_lim, ', '.join(sorted(derived))))
 
 
+def _shared_rule(mod, name, **kw):
+    def run(ctx, rule):
+        import importlib
+        return getattr(importlib.import_module('sa.props.' + mod), name)(ctx, rule, **kw)
+    return run
+
+
 def rules(tier):
     return [('C16.R1', r1_walk_weights), ('C16.R2', r2_uniform_choice), ('C16.R3', r3_seeding), ('C16.R4', r4_limit),
             ('C16.R5', c01.r8_uniform_scale), ('C16.R6', _renorm), ('C16.R7', _loaders_read_only),
             ('C16.R8', c04.r12_output_point_total), ('C16.R9', _loader_complete),
-            ('C16.R10', _loader_strip), ('C16.R11', _mask_insertion), ('C16.R12', _flags_reach_grammar), ('C16.R13', _options_forwarded), ('C16.R14', r14_walk_loop_exits)]
+            ('C16.R10', _loader_strip), ('C16.R11', _mask_insertion), ('C16.R12', _flags_reach_grammar), ('C16.R13', _options_forwarded), ('C16.R14', r14_walk_loop_exits),
+            # C16-da: the session restore no longer checks the cracking mode
+            ('C16.R15', _shared_rule('c16', 'r15_restore_only_in_probability_order_mode'))]
 
 
 META = {
